@@ -596,6 +596,10 @@ func chunkedSeq(e *env, prop string, mode int) {
 			hCase{Keys: []string{"key"}, Spare: []int{0}, Ops: []hOp{
 				{Kind: "set", Key: 0, Len: 10, Seed: 1, TTL: 1000}, {Kind: "gat", Key: 0, TTL: 5000}, {Kind: "append", Key: 0, Len: 5, Seed: 2},
 				{Kind: "get", Key: 0, Keys: []int{0}}}},
+			// touch rewrites the metadata's Exptime; a later append/prepend must keep the touched expiry
+			hCase{Keys: []string{"key"}, Spare: []int{0}, Ops: []hOp{
+				{Kind: "set", Key: 0, Len: 2*ds + 5, Seed: 6, TTL: 1000}, {Kind: "touch", Key: 0, TTL: 5000}, {Kind: "append", Key: 0, Len: 5, Seed: 7},
+				{Kind: "get", Key: 0, Keys: []int{0}}, {Kind: "touch", Key: 0, TTL: 0}, {Kind: "prepend", Key: 0, Len: 3, Seed: 8}, {Kind: "get", Key: 0, Keys: []int{0}}}},
 			// a set with an absolute TTL in the past is acknowledged without effect
 			hCase{Keys: []string{"key"}, Spare: []int{0}, Ops: []hOp{
 				{Kind: "set", Key: 0, Len: 2*ds + 1, Seed: 3}, {Kind: "set", Key: 0, Len: 7, Seed: 4, TTLRel: "abs-past", TTL: 5},
